@@ -34,6 +34,7 @@ func scenarios(tier string) []vlib.Scenario {
 	var out []vlib.Scenario
 	add := func(p params) { out = append(out, vlib.Scenario{Name: p.name(), P: p}) }
 	add(params{W: "W8-failure-four-streams", F: 0, P: 1})
+	add(params{W: "W12-reads-at-failing-ack-flush", F: 0, P: 1})
 	add(params{W: "W9-opens-during-outage", F: 1, P: 0})
 	add(params{W: "W9-opens-during-outage", F: 1, P: 1})
 	// a metadata item queued before an outage is read after (or while) the stream resumes
@@ -69,6 +70,15 @@ func config(sc vlib.Scenario, tier string) vsched.Config {
 	cfg.Budget[vsched.BudP] = p.P
 	cfg.Budget[vsched.BudF] = p.F
 	cfg.Scope = func(site string) bool {
+		if strings.HasPrefix(p.W, "W12") {
+			// deviations only where the reader and the ack flush meet
+			for _, s := range []string{"flushAck", "(*Downstream).ReadDataPoints", "AckBuffer", "assignDataIDAlias", "assignUpstreamInfoAlias", "SendDownstreamDataPointsAck", "gatedWrite", "h:write:client"} {
+				if strings.Contains(site, s) {
+					return true
+				}
+			}
+			return false
+		}
 		return strings.HasPrefix(site, "iscp.") || strings.HasPrefix(site, "wire.") || strings.HasPrefix(site, "transport/")
 	}
 	return cfg
@@ -207,7 +217,7 @@ func (w *world) connWorkload() {
 			vsched.Sleep(time.Second, "h:cut")
 			w.B.Cut(w.B.Live())
 		}
-	case strings.HasPrefix(w.p.W, "W8"):
+	case strings.HasPrefix(w.p.W, "W8"), strings.HasPrefix(w.p.W, "W12"):
 		// two upstreams and two downstreams resume side by side; the application keeps reading buffered chunks
 		// while the acknowledgement flush fails on the dead link
 		u1, err := w.OpenUp(ctx, "u1", iscp.WithUpstreamFlushPolicyImmediately(), iscp.WithUpstreamQoS(message.QoSUnreliable), iscp.WithUpstreamCloseTimeout(2*time.Second))
@@ -224,7 +234,9 @@ func (w *world) connWorkload() {
 		}
 		if c := w.B.Live(); c != nil {
 			for i := 0; i < 4; i++ {
-				w.B.Send(c, dchunk(w.B.Downs[0].Alias, uint32(i+1), fmt.Sprint("d", i)))
+				// (every chunk introduces a new upstream and a new data id: each read books alias announcements
+				// into the buffers the failing ack flush merges back)
+				w.B.Send(c, dchunkK(w.B.Downs[0].Alias, uint32(i+1), fmt.Sprint("d", i), i))
 			}
 			w.B.Send(c, dchunk(w.B.Downs[1].Alias, 1, "e0"))
 		}
@@ -234,7 +246,14 @@ func (w *world) connWorkload() {
 				rctx, rcancel := kit.Ctx(3 * time.Second)
 				d0.D.ReadDataPoints(rctx)
 				rcancel()
-				vsched.Sleep(60*time.Millisecond, "h:reader")
+				if strings.HasPrefix(w.p.W, "W12") {
+					// the later reads fall into the ack flush whose write has just failed on the dead link
+					// (timers fire at quiescence only, so the reader is woken by the failing write itself)
+					lk := w.B.Conns[0].Link
+					vsched.WaitUntil("ack-write-failed", func() bool { return lk.FailedClientWrites > 0 })
+				} else {
+					vsched.Sleep(60*time.Millisecond, "h:reader")
+				}
 			}
 		})
 		spawn("h:reader", func() {
@@ -243,6 +262,9 @@ func (w *world) connWorkload() {
 			rcancel()
 		})
 		spawn("h:writer", func() {
+			if strings.HasPrefix(w.p.W, "W12") {
+				return // (the first write to fail shall be the ack flush's)
+			}
 			for i := 0; i < 2; i++ {
 				up.Write(ctx, kit.IDA, fmt.Sprint(i))
 				u1.Write(ctx, kit.IDB, fmt.Sprint(i))
@@ -315,6 +337,15 @@ func (w *world) connWorkload() {
 	ccancel()
 	w.B.Stop()
 	w.Phase = "done"
+}
+
+func dchunkK(alias uint32, seq uint32, tag string, k int) *message.DownstreamChunk {
+	c := dchunk(alias, seq, tag)
+	if k > 0 {
+		c.UpstreamOrAlias = &message.UpstreamInfo{SessionID: "s", SourceNodeID: "src", StreamID: sim.StreamUUID('x', 1+k)}
+		c.StreamChunk.DataPointGroups[0].DataIDOrAlias = &message.DataID{Name: fmt.Sprint("a", k), Type: "t"}
+	}
+	return c
 }
 
 func dchunk(alias uint32, seq uint32, tag string) *message.DownstreamChunk {
